@@ -2,7 +2,7 @@
 sizes per tier, and the minimum observations below which a run is inconclusive (exit 2)."""
 
 A_MODELS = ["the reference models (RFC 3986 automaton generated from the vendored ABNF; text-level splitter, recomposer, 5.2 resolver, 6.2.2 normaliser, codecs) are the trusted base; they were calibrated against the unchanged tree and cross-checked against inet_pton",
-            "held on the executions observed only: inputs are generated (systematic enumerations plus seeded random workloads), capped at a few thousand characters, characters are code points 0..255 (plus sampled out-of-range wchar_t values for parsing)"]
+            "held on the executions observed only: inputs are generated (systematic enumerations plus seeded random workloads), capped at a few thousand characters, characters are code points 0..255 (plus sampled wchar_t values above U+00FF for parsing and, as probes of a recorded finding, for the escaper, the query composer and the file-name converters)"]
 A_MEM = ["memory oracles are ASan+UBSan red zones, guard pages / exact-size blocks, canaries, the recording memory manager and (fast build) the --wrap libc interposer; red-zone tools miss non-adjacent and intra-object overflows"]
 
 def R(mon, build, quick=None, thorough=None, require=None, **kw):
@@ -112,8 +112,9 @@ PLANS['C18'] = dict(level='exploration',
     assumptions=A_MODELS + A_MEM)
 PLANS['C19'] = dict(level='exploration',
     runs=[R('aw', 'asan', dict(cases=1200000), dict(cases=20000000), dict(agree_parse=10000, agree_ops=10000, agree_strings=10000)),
-          R('aw', 'fast', dict(cases=2500000), dict(cases=32000000))],
-    rule="each case runs the ...A function and, on the widened input, the ...W function back to back and compares return codes, error offsets, component offsets, host kinds and bytes, flags, recomposed text, chars-required/written, mask-required, resolve / create-reference / normalise / make-owner / equals results, escape / unescape offsets and text, query dissect / compose (counts, sizes, text), the four filename functions and uriParseIpFourAddress; wide buffers are exact-size in characters; distinct = distinct inputs",
+          R('aw', 'fast', dict(cases=2500000), dict(cases=32000000)),
+          R('mm', 'fast', dict(cases=2000), dict(cases=2000), dict(giant_component_make_owner=4))],
+    rule="each case runs the ...A function and, on the widened input, the ...W function back to back and compares return codes, error offsets, component offsets, host kinds and bytes, flags, recomposed text, chars-required/written, mask-required, resolve / create-reference / normalise / make-owner / equals results, escape / unescape offsets and text, query dissect / compose (counts, sizes, text), the four filename functions and uriParseIpFourAddress; wide buffers are exact-size in characters; distinct = distinct inputs; plus make-owner of a hand-filled component of 2^29+3 and 2^30+5 characters (address space only) in both APIs: the manager must be asked for exactly length * sizeof(character) bytes",
     assumptions=A_MODELS + A_MEM)
 PLANS['C20'] = dict(level='exploration',
     runs=[R('threads', 'tsan', dict(rounds=32, iters=20000, _workers=4), dict(rounds=128, iters=40000, _workers=4), dict(overlapping_call_pairs_on_shared_object=1000)),
